@@ -14,7 +14,9 @@ Domain (the property's quantifier): every gate tree over n distinct events, dept
 levels, children = blocks of a set partition of the events into >= 2 blocks: n <= 5 (quick and thorough), n = 6 (thorough),
 each with its full outcome family.  In addition - because the first sentence of the property speaks of *the successor sets
 observed*, not only of complete outcome families - `sound` is also checked on arbitrary families of non-empty subsets:
-all 127 families over 3 events and a seeded sample of 4000 (thorough: all 32767) families over 4 events.
+all 127 families over 3 events, a seeded sample of 4000 (thorough: all 32767) families over 4 events, and seeded *partial observations*
+(sub-families of 3-9 outcomes) of every enumerated gate tree - 40 (thorough 300) per tree whose top gate is an OR over plain events and a
+nested gate, 1 (4) per other tree.
 And because an inference must be a function of the observed sets alone (no state carried from one event's inference to the next),
 `sound` is re-checked for ~500 (thorough ~3300) families after / before an inference over a *counted* variant of the same family
 (one event repeated in one set) in the same process.
@@ -259,6 +261,20 @@ def main() -> int:
         rng.shuffle(f4)
         f4 = f4[:4000]
     fams += f4
+    # partial observations: sub-families of the outcome family of a gate tree (what an event has seen so far), most densely for trees
+    # whose top gate is an OR over plain events *and* a nested gate (the shape whose plain children the AND recovery regroups)
+    def mixed_or(t: Any) -> bool:
+        return (not isinstance(t, str) and t[0] == "O" and sum(isinstance(k, str) for k in t[1]) >= 2 and any(not isinstance(k, str) for k in t[1]))
+    partial = []
+    for t in cases:
+        outs = sorted(outcomes(t), key=lambda s_: (len(s_), sorted(s_)))
+        if len(outs) < 4:
+            continue
+        reps = (40 if a.tier == "quick" else 300) if mixed_or(t) and len({e for s_ in outs for e in s_}) >= 4 else (1 if a.tier == "quick" else 4)
+        for _ in range(reps):
+            k = rng.randrange(3, min(len(outs), 9) + 1)
+            partial.append(tuple(rng.sample(outs, k)))
+    fams += partial
     n_fam = len(fams)
     cases += [("family", f) for f in fams]
     hist = families(3) + f4[:300 if a.tier == "quick" else 3000] + [tuple(outcomes(t)) for t in cases if not (isinstance(t, tuple) and t and t[0] == "family")
